@@ -49,17 +49,23 @@ PROPOSED_KNOWN = [
              "defines as a line ending: the value \"a\\rb\" shown in an indented code block puts b on an unindented line, outside "
              "the block (latent with goldmark, which does not split lines at a lone CR)"},
     {"kind": "known",
+     "signature": {"fam": "mdescape", "clause": "codeblock", "cause": "lf-cr"},
+     "what": "markdownCodeBlockEscape treats LF CR as one line ending and writes the indentation after the CR; goldmark (and any "
+             "converter that splits lines at LF only) sees the next code line start with CR instead of the indentation: the value "
+             "\"\\n\\rb\" shown in an indented code block ends the block, b becomes a paragraph (goldmark-confirmed)"},
+    {"kind": "known",
      "signature": {"fam": "mdescape", "clause": "inert", "cause": "indent"},
      "what": "markdownEscape (internal/runtime/escapers.go) keeps a tab that follows a line ending: the value \"\\n\\n\\ta\" shown in "
              "a paragraph (or \"\\n\\ta\" after a heading) starts an indented code block (<pre><code>) in goldmark"},
 ]
 
 FAMS = ["mdescape"]
+# many short TLC processes run side by side: keep each JVM's collector from starting one GC thread per core
+os.environ.setdefault("JAVA_TOOL_OPTIONS", "-XX:ParallelGCThreads=4")
 MC_INVS = ["RoundTripFound", "RoundTripFixed", "CompleteFixed", "CompleteFoundExtent", "CodeFixedConfined",
            "CodeFoundExtent", "FixConservative"]
 PAR = max(2, min(12, rig.NCPU * 3 // 4))       # driver+Trace shards processed by concurrent TLC processes
 ALLPL = ["para", "start", "cont", "list", "heading", "quote", "codetab", "codesp"]
-CORE = ["para", "start", "codetab", "codesp"]
 RULE = ("every string of length <= GenLen over the 19-symbol Markdown alphabet, every string of length <= GenWs over the "
         "7-symbol white-space alphabet (with TAB), a 49-string dictionary of Markdown constructs (all exported by TLC) and "
         "seeded fragment mixes, each shown in 8 placements (strings of the longest length: 4 placements in the thorough "
@@ -91,21 +97,28 @@ def corrupt(o, how):
 
 
 def judge_file(ctx, step, path, audit=False):
-    b, _ = rig.trace_judge(ctx, step, FAMS, "Trace_MdEscape", path, consts={"Audit": audit}, timeout=840)
+    b, _ = rig.trace_judge(ctx, step, FAMS, "Trace_MdEscape", path, consts={"Audit": audit}, timeout=2400)
     d = rig.read_ndjson(ctx.work / step / "diag.ndjson")[0]
     return b, d
 
 
 def shard(ctx, name, cases_path, extra, stats, audit=False):
-    """drive one shard of cases, judge it, fold its numbers into stats; returns the bad records (obs attached)"""
+    """drive one shard of cases and judge it (first pass: records without the html field); folds its numbers
+    into stats; returns (bad records, undecided candidates), each with its complete observation attached"""
     obs = ctx.work / f"obs_{name}.ndjson"
     ctx.drive("c26", cases_path, obs, args=["-extra", str(extra), "-j", str(max(2, rig.NCPU // PAR))])
-    n = ok = nontriv = 0
+    slim = ctx.work / f"slim_{name}.ndjson"
+    n = ok = 0
+    nontriv = set()
     kinds, keep = {}, []
-    with open(obs) as f:
+    with open(obs) as f, open(slim, "w") as g:
         for line in f:
             n += 1
             o = json.loads(line)
+            if audit:
+                g.write(line)
+            else:
+                g.write(json.dumps({k: v for k, v in o.items() if k != "html"}, separators=(",", ":")) + "\n")
             if o["st"] != "ok":
                 kinds[o["st"]] = kinds.get(o["st"], 0) + 1
                 if len(keep) < 3:
@@ -113,30 +126,54 @@ def shard(ctx, name, cases_path, extra, stats, audit=False):
                 continue
             ok += 1
             if o["out"] != o["s"]:
-                nontriv += 1
-            if n % 9973 == 1 and len(keep) < 40:
+                nontriv.add(hash((o["pl"], bytes(o["s"]))))
+            if n % 997 == 1 and len(keep) < 60:
                 keep.append(o)
-    bads, d = judge_file(ctx, "trace_" + name, obs, audit)
+    step = "trace_" + name
+    bads, d = judge_file(ctx, step, slim, audit)
     if d["records"] != n:
         raise Infra("Trace_MdEscape consumed %s of %d records of shard %s" % (d["records"], n, name))
-    if bads:
-        need = {b["k"] for b in bads}
+    cand = rig.read_ndjson(ctx.work / step / "cand.ndjson")
+    need = {b["k"] for b in bads} | {c["k"] for c in cand}
+    at = {}
+    if need:
         with open(obs) as f:
             at = {k: json.loads(line) for k, line in enumerate(f, 1) if k in need}
-        for b in bads:
-            b["obs"] = at[b["k"]]
+    for b in bads:
+        b["obs"] = at[b["k"]]
     stats.append({"n": n, "ok": ok, "nontriv": nontriv, "kinds": kinds, "keep": keep, "diag": d})
-    os.unlink(obs)
-    sh = ctx.work / ("trace_" + name) / "obs.ndjson"
-    if sh.exists():
-        os.unlink(sh)
-    return bads
+    for p in (obs, slim, ctx.work / step / "obs.ndjson"):
+        if p.exists():
+            os.unlink(p)
+    return bads, [at[c["k"]] for c in cand]
+
+
+def second_pass(ctx, cands):
+    """the candidates' complete records (with goldmark's HTML of the real output) judged by the same Trace spec"""
+    if not cands:
+        return [], {"nbad": 0, "records": 0}
+    nsh = max(1, min(PAR, len(cands) // 4000))
+    size = (len(cands) + nsh - 1) // nsh
+    parts = [cands[k:k + size] for k in range(0, len(cands), size)]
+
+    def one(i):
+        p = ctx.work / f"cand_{i}.ndjson"
+        rig.write_ndjson(p, parts[i])
+        b, d = judge_file(ctx, f"trace_cand_{i}", p)
+        for x in b:
+            x["obs"] = parts[i][x["k"] - 1]
+        if d["undecided"]:
+            raise Infra("second pass left %d candidates undecided" % d["undecided"])
+        return b, d
+    with ThreadPoolExecutor(max_workers=PAR) as ex:
+        res = list(ex.map(one, range(len(parts))))
+    return [b for r_ in res for b in r_[0]], {"nbad": sum(r_[1]["nbad"] for r_ in res), "records": sum(r_[1]["records"] for r_ in res)}
 
 
 def run(ctx, replay_case=None):
     consts = {"MaxLen": ctx.pick(4, 5), "WsLen": ctx.pick(5, 6), "GenLen": ctx.pick(3, 4), "GenWs": ctx.pick(4, 5),
-              "GenCore": ctx.pick(4, 5)}
-    extra = ctx.pick(1500, 12000)
+              "GenCore": ctx.pick(3, 5)}
+    extra = ctx.pick(600, 8000)
     phase, t0 = {}, time.time()
 
     def lap(name):
@@ -152,7 +189,7 @@ def run(ctx, replay_case=None):
         extra = 0
     else:
         rig.write_cfg(wd / "MC_MdEscape.cfg", constants=consts, invariants=MC_INVS)
-        r = ctx.tlc(wd, "MC_MdEscape", workers=rig.NCPU, timeout=ctx.pick(240, 800), coverage=not ctx.quick)
+        r = ctx.tlc(wd, "MC_MdEscape", workers=rig.NCPU, timeout=ctx.pick(600, 2400), coverage=not ctx.quick)
         ctx.cov.update(states=r.distinct, transitions=r.generated, mc_wall_s=round(r.wall, 1), mc_invariants=MC_INVS,
                        bounds=json.dumps(consts, sort_keys=True))
         if not r.ok:
@@ -162,6 +199,12 @@ def run(ctx, replay_case=None):
                 raise Infra(f"MC_MdEscape failed: {wd}/MC_MdEscape.out\n" + rig.tail(r.out, 30))
         if not ctx.quick:
             ctx.cov["actions_never_taken"] = r.coverage_zero()
+            # vacuity: sub-expressions of the specification (transcribed loops and reference predicates) that TLC's
+            # coverage report says were never evaluated in the exhaustive run
+            import re
+            last = r.out.rsplit("The coverage statistics at", 1)[-1]
+            zero = sorted(set(re.findall(r"^\s*\|*(line \d+, col \d+ to line \d+, col \d+ of module MdEscape): 0\s*$", last, re.M)))
+            ctx.cov["model_expressions_never_evaluated"] = {"count": len(zero), "first": zero[:12]}
         if not cases.exists():
             raise Infra("no cases.ndjson exported by MC_MdEscape")
     lap("model_check_and_export")
@@ -169,7 +212,7 @@ def run(ctx, replay_case=None):
     allc = rig.read_ndjson(cases)
     allc.sort(key=lambda c: c["id"])
     weight = lambda c: len(c.get("pl") or ALLPL)
-    per = ctx.pick(12000, 100000)          # records per shard
+    per = ctx.pick(12000, 120000)          # records per shard
     parts, cur, w = [], [], 0
     for c in allc:
         cur.append(c)
@@ -192,7 +235,12 @@ def run(ctx, replay_case=None):
     audit = bool(os.environ.get("C26_AUDIT"))
     with ThreadPoolExecutor(max_workers=PAR) as ex:
         res = list(ex.map(lambda j: shard(ctx, j[0], j[1], j[2], stats, audit), jobs))
-    bads = [b for r_ in res for b in r_]
+    bads = [b for r_ in res for b in r_[0]]
+    cands = [o for r_ in res for o in r_[1]]
+    lap("drive_and_judge")
+    b2, d2 = second_pass(ctx, cands)
+    bads += b2
+    lap("candidates_second_pass")
     n = sum(s["n"] for s in stats)
     ok = sum(s["ok"] for s in stats)
     if n == 0:
@@ -208,11 +256,12 @@ def run(ctx, replay_case=None):
     keep = [o for s in stats for o in s["keep"]]
     okkeep = [o for o in keep if o["st"] == "ok"]
     ctx.cov.update(evaluations=n, traces_validated_against_impl=ok - diag["ref_undefined"],
-                   distinct_nontrivial=sum(s["nontriv"] for s in stats), rule=RULE, exhaustive=True,
+                   distinct_nontrivial=len(set().union(*[s["nontriv"] for s in stats])), rule=RULE, exhaustive=True,
                    cases=len(allc), random_cases=extra, shards=len(jobs),
                    samples=[sample(o) for o in rig.pick_samples([o for o in okkeep if o["out"] != o["s"]] or okkeep, 4, ctx.seed)],
                    not_rendered=n - ok, ref_undefined=diag["ref_undefined"],
-                   candidates_decided_by_goldmark=diag["gm_consulted"], bad_records_first_pass=diag["nbad"],
+                   candidates_decided_by_goldmark=len(cands), candidates_rejected_by_goldmark=d2["nbad"],
+                   bad_records_first_pass=diag["nbad"] + d2["nbad"],
                    model_output_mismatch={"transcription_as_found": diag["drift_asfound"],
                                           "transcription_with_repairs": diag["drift_fixed"]})
     if audit:
@@ -230,7 +279,23 @@ def run(ctx, replay_case=None):
                         % (kinds, ctx.cov.get("not_rendered_example")))
         if ok == 0:
             raise Infra("no template rendered: %s" % ctx.cov.get("not_rendered_example"))
-    lap("drive_and_judge")
+    # 5. (started now, runs beside step 4) sensitivity self-test: corrupted observations must be rejected by the same Trace spec
+    pool = [o for o in okkeep if o["out"] != o["s"] or o["pl"] in ("codetab", "codesp")] or okkeep
+    para = [o for o in pool if o["pl"] not in ("codetab", "codesp")]
+    code = [o for o in pool if o["pl"] in ("codetab", "codesp")]
+    st = []
+    for how, src in ((0, para), (1, para), (2, para), (0, code)):
+        if src:
+            st.append(corrupt(json.loads(json.dumps(src[(ctx.seed + how) % len(src)])), how))
+    for i, o in enumerate(st):
+        o["id"] = 900001 + i
+
+    def selftest():
+        p = ctx.work / "selftest_obs.ndjson"
+        rig.write_ndjson(p, st)
+        return judge_file(ctx, "trace_selftest", p)[1]
+    ex = ThreadPoolExecutor(max_workers=1)
+    fut = ex.submit(selftest) if st else None
     # 4. reproduction guard: the failing cases again, in a fresh process, judged again
     confirmed = []
     if bads:
@@ -249,23 +314,12 @@ def run(ctx, replay_case=None):
         ctx.cov["unreproduced"] = len(bads) - len(confirmed)
         for b in confirmed:
             b["what"] = sample(b["obs"])
-    # 5. sensitivity self-test: corrupted observations must be rejected by the same Trace spec
-    pool = [o for o in okkeep if o["out"] != o["s"] or o["pl"] in ("codetab", "codesp")] or okkeep
-    para = [o for o in pool if o["pl"] not in ("codetab", "codesp")]
-    code = [o for o in pool if o["pl"] in ("codetab", "codesp")]
-    st = []
-    for how, src in ((0, para), (1, para), (2, para), (0, code)):
-        if src:
-            st.append(corrupt(json.loads(json.dumps(src[(ctx.seed + how) % len(src)])), how))
-    for i, o in enumerate(st):
-        o["id"] = 900001 + i
-    if st:
-        p = ctx.work / "selftest_obs.ndjson"
-        rig.write_ndjson(p, st)
-        _, d3 = judge_file(ctx, "trace_selftest", p)
+    if fut:
+        d3 = fut.result()
         ctx.cov["sensitivity_selftest"] = {"corrupted": len(st), "rejected": d3["nbad"]}
         if d3["nbad"] < len(st):
             raise Infra(f"sensitivity self-test failed: {len(st)} corrupted observations, only {d3['nbad']} rejected")
+    ex.shutdown()
     lap("confirm_and_selftest")
 
     # 6. verdict
